@@ -1175,6 +1175,10 @@ namespace ipr::impl {
             throw std::domain_error
                ("type_factoy::get_qualified: no qualifier");
 
+         // Maintain the invariant Qualified(cv2, Qualified(cv1, T)) = Qualified(cv1 | cv2, T).
+         if (auto qt = util::view<ipr::Qualified>(t))
+            return get_qualified(q | qt->qualifiers(), qt->main_variant());
+
          using rep = impl::Qualified::Rep;
          return *qualifieds.insert(rep{ q, t }, binary_compare());
       }
